@@ -4,5 +4,5 @@
 ID=$1; PATCH=$2; shift 2; CHECKS=${@:-$ID}
 WT=/tmp/mut/$ID/wt
 git -C $WT checkout -q -- . && git -C $WT apply $PATCH || { echo "patch does not apply"; exit 2; }
-for c in $CHECKS; do VERIF_REPO=$WT VERIF_DEV=${VERIF_DEV_OVERRIDE:-$c} /verif/check $c 2>&1 | grep -v "conda\|SyntaxWarning\|^  \"\"\"" | tail -${TAILN:-6}; done
+for c in $CHECKS; do D=${VERIF_DEV_OVERRIDE:-$c}; [ "$D" = none ] && D=""; VERIF_REPO=$WT VERIF_DEV=$D /verif/check $c 2>&1 | grep -v "conda\|SyntaxWarning\|^  \"\"\"" | tail -${TAILN:-6}; done
 git -C $WT checkout -q -- .
